@@ -242,6 +242,10 @@ namespace Pistache::Http::Mime
                     double val;
                     if (!match_double(&val, cursor))
                         raise("Invalid quality factor");
+                    // also rejects NaN; out-of-range values must not reach the
+                    // narrowing conversion in Q::fromFloat
+                    if (!(val >= 0.0 && val <= 1.0))
+                        raise("Invalid quality factor");
                     q_ = Q::fromFloat(val);
                 }
                 else
